@@ -376,13 +376,20 @@ theorem good_sim {cfg : Cfg} {w : Nat} {a b : State} (h : Sim a b) (hg : Good cf
   · intro c hc
     have hs := h.2 c.name
     obtain ⟨hq, hi⟩ := hg.quiet c hc
-    refine ⟨hs.queue ▸ hq, ?_⟩
+    refine ⟨?_, ?_⟩
+    · have hqq := hs.queue
+      rw [hq] at hqq
+      exact nil_of_map_eq_nil eraseA hqq
     have := hs.length
     rw [hi] at this
     exact List.length_eq_zero_iff.mp this.symm
   · intro c hc x hx
-    rw [← (h.2 c.name).waiters] at hx
-    exact hg.waiters c hc x hx
+    have hm : eraseW x ∈ (a.workers c.name).waiters.map eraseW := by
+      rw [(h.2 c.name).waiters]; exact List.mem_map_of_mem hx
+    obtain ⟨y, hy, hyx⟩ := List.mem_map.mp hm
+    obtain ⟨_, _, h3, h4, h5, _⟩ := eraseW_eq hyx
+    rw [← h3, ← h4, ← h5]
+    exact hg.waiters c hc y hy
 
 /-- the persisted prefix replays (here: at clock 0), without raising and without an exit command,
 to a good state -/
